@@ -7,6 +7,7 @@ import (
 	"os/signal"
 	"path/filepath"
 	"strings"
+	"sync"
 	"syscall"
 	"testing"
 	"time"
@@ -52,6 +53,28 @@ type dlCase struct {
 	KeepWork bool `json:"keep_work,omitempty"`
 }
 
+var immutableOnce sync.Once
+var immutableOK bool
+
+// immutableWorks reports whether chattr +i makes a file undeletable here (needs root and a file system with attributes).
+func immutableWorks() bool {
+	immutableOnce.Do(func() {
+		d := tskit.Scratch("c17imm")
+		defer os.RemoveAll(d)
+		os.MkdirAll(d, 0o777)
+		f := filepath.Join(d, "f")
+		if os.WriteFile(f, []byte("x"), 0o666) != nil {
+			return
+		}
+		if exec.Command("chattr", "+i", f).Run() != nil {
+			return
+		}
+		immutableOK = os.Remove(f) != nil
+		exec.Command("chattr", "-i", f).Run()
+	})
+	return immutableOK
+}
+
 func grace(d time.Duration) time.Duration {
 	g := 100 * time.Millisecond
 	if gp := d / 20; gp > g {
@@ -78,6 +101,27 @@ func runCase(c dlCase) (fail *vt.Fail, soft string) {
 	g := grace(D)
 	root := tskit.Scratch("c17")
 	defer tskit.RemoveAll(root)
+	for _, sc := range c.Scripts {
+		if sc.Kind == "immutable" {
+			if !immutableWorks() {
+				return nil, "" // this file system (or this user) cannot make a file undeletable: not exercised
+			}
+			// afterwards: lift the flag and remove what testscript could not (its temporary root lives in GOTMPDIR / TMPDIR)
+			defer func() {
+				tmp := os.Getenv("GOTMPDIR")
+				if tmp == "" {
+					tmp = os.TempDir()
+				}
+				left, _ := filepath.Glob(filepath.Join(tmp, "go-test-script*"))
+				for _, d := range append(left, root) {
+					exec.Command("chattr", "-R", "-i", d).Run()
+				}
+				for _, d := range left {
+					os.RemoveAll(d)
+				}
+			}()
+		}
+	}
 	pids := filepath.Join(root, "pids")
 	os.MkdirAll(pids, 0o777)
 	var files []tskit.ScriptFile
@@ -104,6 +148,10 @@ func runCase(c dlCase) (fail *vt.Fail, soft string) {
 			lines = append(lines, "exec vmain emit -o 'done\\n'", "stdout done")
 		case "block":
 			lines = append(lines, neg+"exec vmain block --pid="+pf)
+		case "quit-exits-0":
+			// the command takes the interrupt as a request to shut down and exits with status 0: it was stopped by the
+			// deadline all the same
+			lines = append(lines, neg+"exec vmain block --exit0-on-quit --pid="+pf)
 		case "ignore-quit":
 			lines = append(lines, neg+"exec vmain block --ignore-quit --pid="+pf)
 		case "ignore-quit-inherited":
@@ -123,6 +171,16 @@ func runCase(c dlCase) (fail *vt.Fail, soft string) {
 				fmt.Sprintf("exec vmain block --ignore-quit --exit-on-int --die-after=%d --ready=ready2 --pid=%s &", die, pf2),
 				"exec vmain waitfile ready2",
 				"wait")
+		case "immutable":
+			// the script ends at once, but its work directory cannot be removed (a file in it is immutable): cleaning up
+			// fails, which must cost no time worth mentioning - the script finished long before the deadline
+			lines = append(lines, "exec chattr +i keep.txt", "exec vmain emit -o 'done\\n'", "stdout done")
+		case "orphan-pipe":
+			// the command itself exits at once but leaves a descendant holding its output pipes until a moment between the
+			// interrupt time and the deadline: when the interrupt is due there is no process left to signal, and the wait
+			// ends when the pipes close
+			at := D - 2*g + g/2
+			lines = append(lines, fmt.Sprintf("exec sh -c 'sleep %.3f &'", at.Seconds()))
 		case "consume":
 			// finishes by itself after using up a fraction of the budget (EdgeMS is the percentage of D)
 			ms := int(D/time.Millisecond) * s.EdgeMS / 100
@@ -143,7 +201,11 @@ func runCase(c dlCase) (fail *vt.Fail, soft string) {
 		e.blockLine = len(lines)
 		lines = append(lines, "probe after")
 		exps = append(exps, e)
-		files = append(files, tskit.ScriptFile{Name: fmt.Sprintf("s%d", i), Data: []byte(strings.Join(lines, "\n") + "\n")})
+		text := strings.Join(lines, "\n") + "\n"
+		if s.Kind == "immutable" {
+			text += "-- keep.txt --\nkept\n"
+		}
+		files = append(files, tskit.ScriptFile{Name: fmt.Sprintf("s%d", i), Data: []byte(text)})
 	}
 	r := tskit.NewRecorder()
 	type done struct{ rr tskit.RunResult }
@@ -211,7 +273,7 @@ func runCase(c dlCase) (fail *vt.Fail, soft string) {
 			}
 		}
 		switch e.kind {
-		case "early", "consume":
+		case "early", "consume", "immutable":
 			if sub.Verdict == "fail" && t >= D-2*g-20*time.Millisecond {
 				if _, msgs := tskit.FailLines(sub.Log, rr.Files[i]); len(msgs) > 0 && strings.Contains(msgs[0], "timed out") {
 					// on a busy machine even a short command can still be running when the interrupt is due:
@@ -240,7 +302,7 @@ func runCase(c dlCase) (fail *vt.Fail, soft string) {
 			if t > D+300*time.Millisecond && soft == "" {
 				soft = fmt.Sprintf("the waiting script finished %v after the RunT call, later than the deadline %v%s", t.Round(time.Millisecond), D, ctx)
 			}
-		case "block", "ignore-quit", "ignore-quit-inherited":
+		case "block", "quit-exits-0", "ignore-quit", "ignore-quit-inherited":
 			last.blocked = true
 			if sub.Verdict != "fail" {
 				return vt.Failf("blocked-script-not-failed", "a script blocked in a foreground command at the deadline was reported %s%s", sub.Verdict, ctx), ""
@@ -285,7 +347,7 @@ func runCase(c dlCase) (fail *vt.Fail, soft string) {
 			if t > D+slack && t > intr+g+slack && soft == "" {
 				soft = fmt.Sprintf("the blocked script finished %v after the RunT call, later than the deadline %v (interrupt is due at %v, kill at %v)%s", t.Round(time.Millisecond), D, intr, intr+g, ctx)
 			}
-		case "sleep-edge":
+		case "sleep-edge", "orphan-pipe":
 			// either verdict; if it failed it must carry the timeout message, and nothing may be left behind
 			if sub.Verdict == "fail" {
 				_, msgs := tskit.FailLines(sub.Log, rr.Files[i])
@@ -352,7 +414,7 @@ func genDeadline(t *rapid.T) dlCase {
 		for i := 0; i < n; i++ {
 			c.Scripts = append(c.Scripts, scriptSpec{Kind: "consume", EdgeMS: rapid.IntRange(10, 35).Draw(t, "pct")})
 		}
-		c.Scripts = append(c.Scripts, scriptSpec{Kind: rapid.SampledFrom([]string{"block", "ignore-quit", "ignore-quit-inherited"}).Draw(t, "lastkind"), Neg: rapid.IntRange(0, 3).Draw(t, "neg") == 0, Before: rapid.IntRange(0, 2).Draw(t, "before")})
+		c.Scripts = append(c.Scripts, scriptSpec{Kind: rapid.SampledFrom([]string{"block", "ignore-quit", "ignore-quit-inherited", "quit-exits-0"}).Draw(t, "lastkind"), Neg: rapid.IntRange(0, 3).Draw(t, "neg") == 0, Before: rapid.IntRange(0, 2).Draw(t, "before")})
 		if rapid.Bool().Draw(t, "late") {
 			// one more blocking script: it starts when the first has been stopped, i.e. after the interrupt time
 			c.Scripts = append(c.Scripts, scriptSpec{Kind: rapid.SampledFrom([]string{"ignore-quit-inherited", "ignore-quit", "block"}).Draw(t, "latekind"), Before: rapid.IntRange(0, 1).Draw(t, "latebefore")})
@@ -361,7 +423,7 @@ func genDeadline(t *rapid.T) dlCase {
 	}
 	n := rapid.IntRange(1, 4).Draw(t, "nscripts")
 	for i := 0; i < n; i++ {
-		s := scriptSpec{Kind: rapid.SampledFrom([]string{"early", "block", "block", "ignore-quit", "ignore-quit", "sleep-edge", "ignore-quit-inherited", "bg-wait"}).Draw(t, "kind"), Before: rapid.IntRange(0, 2).Draw(t, "before")}
+		s := scriptSpec{Kind: rapid.SampledFrom([]string{"early", "block", "block", "ignore-quit", "ignore-quit", "sleep-edge", "ignore-quit-inherited", "bg-wait", "orphan-pipe", "immutable", "quit-exits-0"}).Draw(t, "kind"), Before: rapid.IntRange(0, 2).Draw(t, "before")}
 		s.Neg = rapid.IntRange(0, 3).Draw(t, "neg") == 0
 		s.EdgeMS = rapid.IntRange(-30, 30).Draw(t, "edge")
 		s.AtKill = rapid.Bool().Draw(t, "atkill")
@@ -402,9 +464,15 @@ var scenarios = []dlCase{
 	// a deadline closer than two grace periods: the interrupt time is already past when the scripts start
 	{DeadlineMS: 120, Scripts: []scriptSpec{{Kind: "ignore-quit-inherited"}, {Kind: "block", Before: 1}}},
 	{DeadlineMS: 700, Scripts: []scriptSpec{{Kind: "bg-wait", Before: 1}, {Kind: "early"}}},
+	// a work directory that cannot be removed
+	{DeadlineMS: 900, Scripts: []scriptSpec{{Kind: "immutable"}, {Kind: "block"}}},
+	// no process left to interrupt when the interrupt is due, the output pipes still open
+	{DeadlineMS: 1500, Scripts: []scriptSpec{{Kind: "orphan-pipe", Before: 1}, {Kind: "block"}}},
 	// kept work directories: a script that ends early must not disturb the ones still running
 	{DeadlineMS: 900, KeepWork: true, Scripts: []scriptSpec{{Kind: "early"}, {Kind: "block", Before: 1}, {Kind: "ignore-quit-inherited"}}},
 	{DeadlineMS: 1200, KeepWork: true, Sequential: true, Scripts: []scriptSpec{{Kind: "consume", EdgeMS: 15}, {Kind: "block"}}},
+	// a command that answers the interrupt with a clean exit
+	{DeadlineMS: 900, Scripts: []scriptSpec{{Kind: "quit-exits-0", Before: 1}, {Kind: "quit-exits-0", Neg: true}}},
 }
 
 func TestScenarios(t *testing.T) {
